@@ -314,12 +314,111 @@ Definition spec_lim (expect : val) : string :=
     (if is_tagv (vnth 1 expect) "hdr2big" then "hdr2big" else "sec2big")
   else "-".
 
+(* ---- calling an iterator again after it has reported the end ------------------------------------------------
+   The harness calls Next (or the next Next/SkipNext of its choice string) twice more after the first
+   terminal result.  When that result was a clean io.EOF the model predicts what the two calls return --
+   "eof" | "blk" (a block / metadata) | "err", and "?" for whatever follows an "err" (the position after an
+   error is not tracked); after any other terminal result only "returned, no panic" is required ("-"). *)
+Section Again.
+  Variable hok : bytes -> bytes -> option bool.
+  Variable hdrdec : bytes -> option (list bytes * N).
+  (* the stream at the call that ended the scan *)
+  Fixpoint scan_tail (fuel : nat) (o : ropts) (s : bytes) : bytes :=
+    match fuel with
+    | O => s
+    | S f => match next_block hok o s with Ok (_, rest) => scan_tail f o rest | Err _ => s end
+    end.
+  (* what a call that returned io.EOF consumed: nothing at the end of the stream, the one-byte varint of
+     a zero-length section under ZeroLengthSectionAsEOF *)
+  Definition after_eof_stream (o : ropts) (s : bytes) : bytes :=
+    match read_uv s with
+    | VOk l rest _ => if (l =? 0) && o_zeof o then rest else s
+    | _ => s
+    end.
+  Fixpoint again_next (k : nat) (o : ropts) (s : bytes) : list string :=
+    match k with
+    | O => []
+    | S k' =>
+      match next_block hok o s with
+      | Ok (_, rest) => "blk" :: again_next k' o rest
+      | Err EEof => "eof" :: again_next k' o (after_eof_stream o s)
+      | Err _ => "err" :: repeat "?" k'
+      end
+    end.
+  Definition again_scan (o : ropts) (s : bytes) : list string :=
+    let t := scan_tail (S (length s)) o s in
+    match next_block hok o t with
+    | Err EEof => again_next 2 o (after_eof_stream o t)
+    | _ => []
+    end.
+  Definition again_br (o : ropts) (file : bytes) : list string :=
+    match br_open hdrdec o file with
+    | Ok (_, _, s, _, _) => again_scan o s
+    | Err _ => []
+    end.
+  Definition again_carv1 (o : ropts) (file : bytes) : list string :=
+    match carv1_read_all hok hdrdec o file with
+    | Ok _ =>
+      match read_header hdrdec (o_maxh o) file with
+      | Ok (_, _, rest, _) => again_scan (mkropts (o_zeof o) (o_maxh o) (o_maxs o) false) rest
+      | Err _ => []
+      end
+    | Err _ => []
+    end.
+  (* root module: after io.EOF the bufio.Reader has gone back to the pool and Next answers io.EOF for good *)
+  Definition again_root (file : bytes) : list string :=
+    match root_read_all hok hdrdec file with
+    | Ok (_, sc) => match s_end sc with EEof => ["eof"; "eof"] | _ => [] end
+    | Err _ => []
+    end.
+  (* Next / SkipNext strings: the choices after the one that ended the walk *)
+  Definition again_step (o : ropts) (ch : bool) (st : BlockReaderPos.brp) : string * option BlockReaderPos.brp :=
+    match BlockReaderPos.brp_walk hok o [ch] st with
+    | (_ :: _, (_, st')) => ("blk", Some st')
+    | ([], (Some EEof, st')) => ("eof", Some st')
+    | ([], (_, _)) => ("err", None)
+    end.
+  Definition again_brskip (o : ropts) (seek : bool) (file : bytes) (w : list bool) : list string :=
+    match BlockReaderPos.brp_run hok hdrdec o seek file w with
+    | Ok (_, _, _, (steps, (Some EEof, st))) =>
+      let k := length steps in
+      match again_step o (nth (S k) w true) st with
+      | (c1, Some st1) => [c1; fst (again_step o (nth (S (S k)) w true) st1)]
+      | (c1, None) => [c1; "?"]
+      end
+    | _ => []
+    end.
+End Again.
+Definition tag_eof : string := "eof".
+Fixpoint join_comma (l : list string) : string :=
+  match l with
+  | [] => "-"
+  | [x] => x
+  | x :: t => x ++ "," ++ join_comma t
+  end.
+Definition model_again (input : val) : string :=
+  let e := vN (vnth 0 input) in
+  let o := v_ropts_t (vnth 1 input) in
+  let file := vB (vnth 2 input) in
+  let hok := hok_lookup (vL (vnth 3 input)) in
+  let hdr := hdr_lookup (vL (vnth 4 input)) in
+  let extra := vnth 5 input in
+  join_comma
+    (if e =? entry_br then again_br hok hdr o file
+     else if e =? entry_carv1 then again_carv1 hok hdr o file
+     else if e =? entry_root then again_root hok hdr file
+     else if (e =? entry_brskip) && (vN (vnth 0 extra) <? 2) then
+       again_brskip hok hdr o (vN (vnth 0 extra) =? 0) file
+                    (cyc_choices (S (S (S (length file)))) (vB (vnth 1 extra)) [])
+     else []).
+
 Definition run_total (input : val) : val :=
   let t := model_outcome input in
   let expect := vnth 6 input in
   match t with
-  | TUnmodelled => VL [VT "total"; VT (spec_lim expect)]
-  | _ => VL [VT (tout_tag t); VT (lim_of_tag expect (tout_tag t))]
+  | TUnmodelled => VL [VT "total"; VT (spec_lim expect); VT "-"]
+  | TPanic => VL [VT (tout_tag t); VT (lim_of_tag expect (tout_tag t)); VT "-"]
+  | _ => VL [VT (tout_tag t); VT (lim_of_tag expect (tout_tag t)); VT (model_again input)]
   end.
 
 (* what each entry point (id mod 100) reads under which limit:
@@ -370,6 +469,12 @@ Definition prop_total (input obs : val) : val :=
   else if alloc_budget (entry_hlim e (o_maxh o)) (entry_slim e (o_maxs o)) (entry_uses_cfr e) (entry_uses_idx e)
                        (blen file) <? meas
   then failv "alloc-bound" input
+  else if is_tagv outcome "end-eof" && in_list (vN (vnth 0 input)) [0; 1; 2; 8]
+          && ((vN (vnth 0 input) =? 2) || negb (o_zeof o))
+          && negb (is_tagv (vnth 2 obs) "eof,eof") && negb (is_tagv (vnth 2 obs) "-")
+  then (* without ZeroLengthSectionAsEOF a clean io.EOF means the stream is exhausted (the root reader has
+          released its buffer): every further call must answer io.EOF again *)
+       failv "eof-not-terminal" input
   else if is_tagv (vnth 0 expect) "exact" && negb (is_tagv lim "-")
   then failv "limit-exact-rejected" input
   else if is_tagv (vnth 0 expect) "over" && negb (is_tagv lim (spec_lim expect))
